@@ -48,6 +48,14 @@ type obsRec struct {
 	opaque bool
 }
 
+// TraceEv is one entry of the schedule trace of a run with several threads: a visible operation of
+// LIBRARY code (role of the thread + file:line of the operation) or an environment event (role "env").
+type TraceEv struct {
+	Role string `json:"r"`
+	Site string `json:"s,omitempty"`
+	Code int64  `json:"k,omitempty"`
+}
+
 type Failure struct {
 	Kind    string // "assert", "panic", "deadlock"
 	Msg     string
@@ -57,6 +65,7 @@ type Failure struct {
 	Nondet  []uint64
 	Chooses []int64
 	Env     []int64 // environment events in the order they completed (goroutine tier)
+	STrace  []TraceEv // library-level visible operations and environment events, in execution order
 	LibPrio bool    // found by the library-priority re-exploration (natively stageable schedule)
 }
 
@@ -143,6 +152,7 @@ type Exec struct {
 	wantWitness bool
 	trace       bool
 	envTrace    []int64
+	strace      []TraceEv
 	libPrio     bool
 	raceChecks  int
 	cross         *Solver // second solver for differential checks of discharged obligations (thorough tier)
